@@ -58,7 +58,7 @@ func runC20(ctx *Ctx) {
 	family := map[string]string{"NEA1": "snow", "NIA1": "snow", "NEA1(300 octets)": "snow", "NIA1(300 octets)": "snow", "NASEncode(NIA1,NEA1)": "snow", "NASDecode(NIA1,NEA1)": "snow",
 		"NEA2": "aes", "NIA2": "aes", "NEA2(300 octets)": "aes", "NASEncode(NIA2,NEA2)": "aes", "NASDecode(NIA2,NEA0)": "aes",
 		"DeriveRESstarAndSetKey": "keys", "DeriveRESstarAndSetKey(OP only)": "keys", "Milenage+KDF": "keys",
-		"SUCI+CreateUE+capability": "ids", "identifier conversions": "ids", "NAS constructors": "nas", "NAS-plain-codec": "codec", "NGAP-encode-decode": "codec", "NGAP builders": "ngap", "NGAP refused encode": "ngap", "NIA2(key equal for all UEs)": "aes", "NEA2(key equal for all UEs)": "aes", "DeriveRESstarAndSetKey(OP only, one operator OP, own K)": "keys", "NASEncode(NIA0,NEA0) short message": "nas", "GetNasPdu(NIA2,NEA2)": "aes"}
+		"SUCI+CreateUE+capability": "ids", "identifier conversions": "ids", "NAS constructors": "nas", "NAS-plain-codec": "codec", "NGAP-encode-decode": "codec", "NGAP builders": "ngap", "NGAP refused encode": "ngap", "NIA2(key equal for all UEs)": "aes", "NEA2(key equal for all UEs)": "aes", "DeriveRESstarAndSetKey(OP only, one operator OP, own K)": "keys", "NASEncode(NIA0,NEA0) short message": "nas", "GetNasPdu(NIA2,NEA2)": "aes", "DeriveRESstarAndSetKey(OP only, operator record shared)": "keys"}
 	nsingle := len(ops) - len(c20sequences)
 	for i := nsingle; i < len(ops); i++ {
 		groups = append(groups, group{[]int{i, i}}) // two threads, each performing the same two operations in a row on its own UE
@@ -112,7 +112,7 @@ func runC20(ctx *Ctx) {
 			}
 		}
 		r.Sample("threads: UE0 NEA1(5 octets) || UE1 NIA1(9 octets): every interleaving at the 90+ yield points with <=2 preemptions; outputs must equal the sequential ones")
-		r.Rule = fmt.Sprintf("cooperative scheduler (one goroutine runs at a time; scheduling points = every statement that reads or writes a package-level variable mutated at run time anywhere in the instrumented packages [found by AST analysis of the current tree, listed under mutated_package_level_variables; the first %d dynamic instances of each such statement per thread], scheduler-aware mutex operations, thread start/end): for %d unordered pairs of %d operation kinds (27 single operations and 14 two-operation sequences performed by one thread, each sequence against itself) (each thread on its own UE context, keys and messages; quick: every operation against itself, every pair inside a family of operations sharing code, every pair involving a codec; thorough: all pairs)%s every schedule with <=%d preemptions (one less for groups containing a composite NASEncode/NASDecode operation and, in quick, for pairs across families); "+
+		r.Rule = fmt.Sprintf("cooperative scheduler (one goroutine runs at a time; scheduling points = every statement that reads or writes a package-level variable mutated at run time anywhere in the instrumented packages [found by AST analysis of the current tree, listed under mutated_package_level_variables; the first %d dynamic instances of each such statement per thread], scheduler-aware mutex operations, thread start/end): for %d unordered pairs of %d operation kinds (28 single operations and 14 two-operation sequences performed by one thread, each sequence against itself) (each thread on its own UE context, keys and messages; quick: every operation against itself, every pair inside a family of operations sharing code, every pair involving a codec; thorough: all pairs)%s every schedule with <=%d preemptions (one less for groups containing a composite NASEncode/NASDecode operation and, in quick, for pairs across families); "+
 			"oracle: every thread's outputs == the outputs of the same operation run alone (and == the independent references for NEA1/NIA1); deadlock = violation; plus cold start: every single operation against itself and four pairs of primitives sharing tables, every schedule with <=1 (thorough 2) preemptions, ONE execution per fresh process (lazily built state is built by the two threads' own first calls), same oracle; plus a separate free-running pass of the same bodies and of four long-message operations (9000 octets; the scheduler takes those in thorough only, against themselves with one preemption) built with -race (G in {2,8,64} goroutines, 200 rounds): any data race report is a violation; distinct = (group, schedule); non-trivial = schedules with at least one preemption",
 			vsched.MaxPerSite, npairs, len(ops), map[bool]string{true: " and 9 triples", false: ""}[ctx.Thorough], bound)
 		r.Assume("only sequentially consistent interleavings at the inserted yield points are explored; unsynchronised accesses elsewhere are the business of the free-running -race pass (a dynamic detector, not an enumeration)",
